@@ -338,6 +338,11 @@ M('F43R', 'src/xdoctest/doctest_example.py', """                            self
                         else:
                             raise""", """                        else:
                             raise""", ['C03'], 'F43 repair reverted: output printed before an expected exception satisfies a later want')
+M('F44R', 'src/xdoctest/utils/util_import.py', """                sys.path.pop(real_index)
+                warnings.warn('\\n'.join(msg_parts))
+""", """                warnings.warn('\\n'.join(msg_parts))
+                sys.path.pop(real_index)
+""", ['C12'], 'F44 repair reverted: the notice about a changed sys.path is given before the entry is removed')
 M('F17R', 'src/xdoctest/doctest_example.py', """                part_directive = None
                 try:
                     try:
